@@ -1,11 +1,18 @@
 //! Kani harnesses (= contracts) for the functions of `Task` that go through the flow table:
-//! `close_flow`, `ack_recv_new_stream`, `con_recv_new_stream`, the arms of `process_frame`,
-//! `process_message`.  Built against /verif/kani/tokio-model and /verif/kani/hashbrown-model
-//! (assumed contracts on dependencies: FIFO channels, a finite map).
-#![allow(dead_code, unused_imports, unused_variables)]
+//! `process_frame` (every opcode x slot class), `process_message`, `close_flow`,
+//! `ack_recv_new_stream`, `con_recv_new_stream`.  Built against /verif/kani/tokio-model,
+//! /verif/kani/hashbrown-model and /verif/kani/parking_lot-model (assumed contracts on
+//! dependencies: FIFO channels, a finite map, a lock), logging compiled out.
+//!
+//! Flow ids come from the concrete alphabet {0, A, B = A^1, C}: ids are only compared and used as
+//! map keys, a symbolic id makes every key comparison a solver question (measured 3-10x); all
+//! numeric payload fields (windows, ports, acknowledged counts, payload bytes) are symbolic.
+//! Every harness puts a bystander flow B into the table and checks that it is untouched
+//! (frame condition: "no cross-talk", "a misbehaving peer disturbs only the flow it addresses").
+#![allow(dead_code, unused_imports, unused_variables, unused_mut)]
 use super::verif_kani::*;
 use super::*;
-use crate::frame::{BindType, Frame, OpCode};
+use crate::frame::{BindPayload, BindType, Frame, OpCode};
 use crate::loom::Ordering;
 use alloc::vec::Vec;
 use core::future::Future;
@@ -21,332 +28,832 @@ fn call_through<F: FnOnce() -> R + std::panic::UnwindSafe, R>(f: F) -> std::thre
 #[cfg(verif_replay)]
 use crate::verif_replay_kani as kani;
 
-/// poll a future exactly once with a no-op waker
+pub(crate) const A: u32 = 0x0102_0304;
+pub(crate) const B: u32 = A ^ 1;
+pub(crate) const C: u32 = 0x0a0b_0c0d;
+pub(crate) const B_CREDIT: u32 = 6;
+
+/// poll a future exactly once with a no-op waker.  The future is leaked afterwards instead of
+/// dropped: dropping a completed `async fn` future is a no-op, but CBMC does not fold the state tag
+/// of the (nested) state machine and would explore the drop glue of every suspended state with
+/// garbage contents (measured: 180k of 190k symex steps).
 pub(crate) fn poll_once<F: Future>(f: F) -> Poll<F::Output> {
-    let mut f = core::pin::pin!(f);
+    let mut f = core::mem::ManuallyDrop::new(f);
+    // SAFETY: `f` is never moved again and never dropped (leaked in place)
+    let p = unsafe { Pin::new_unchecked(&mut *f) };
     let mut c = cx();
-    f.as_mut().poll(&mut c)
+    p.poll(&mut c)
 }
 
-/// Finish for a flow id that is not in the table: exactly one Reset(id), table untouched
-#[cfg_attr(kani, kani::proof)]
-#[cfg_attr(kani, kani::stub(catch_unwind, call_through))]
-#[cfg_attr(kani, kani::unwind(6))]
-#[cfg_attr(verif_replay, test)]
-fn x_pf_finish_unknown() {
-    let mut w = world(4, 2, false, 1);
-    let id: u32 = kani::any();
-    let r = poll_once(w.task.process_frame(Frame::new_finish(id), false));
-    assert!(matches!(r, Poll::Ready(Ok(()))), "C10.finish.unknown.ok: an unknown flow is not a connection error");
-    core::mem::forget(r);
-    let (seen, _) = next_out(&mut w.tx_msg_rx);
-    assert!(seen.op == 2 && seen.id == id && seen.len == 5, "C10.finish.unknown.reset: Finish on an unknown flow is answered with Reset of that flow");
-    assert!(out_empty(&mut w.tx_msg_rx), "C10.finish.unknown.single");
-    assert!(w.task.flows.read().len() == 0, "C10.finish.unknown.table: the table is untouched");
-    core::mem::forget(w);
+/// bystander flow B: a pending bind request (cheap) -- returns the receiving end
+pub(crate) fn bystander_bind(w: &World) -> oneshot::Receiver<bool> {
+    let (tx, rx) = oneshot::channel::<bool>();
+    w.task.flows.write().insert(B, FlowSlot::BindRequested(tx));
+    rx
+}
+pub(crate) fn bystander_bind_untouched(w: &World, rx: &mut oneshot::Receiver<bool>) -> bool {
+    let g = w.task.flows.read();
+    let present = matches!(g.get(&B), Some(FlowSlot::BindRequested(_)));
+    drop(g);
+    let mut c = cx();
+    present && matches!(Pin::new(rx).poll(&mut c), Poll::Pending)
 }
 
-/// close_flow on a table with two established flows: only the addressed one goes
-#[cfg_attr(kani, kani::proof)]
-#[cfg_attr(kani, kani::stub(catch_unwind, call_through))]
-#[cfg_attr(kani, kani::unwind(6))]
-#[cfg_attr(verif_replay, test)]
-fn x_close_flow_frame() {
-    let mut w = world(4, 2, false, 1);
-    let a: u32 = kani::any();
-    let b: u32 = kani::any();
-    let inhibit: bool = kani::any();
-    kani::assume(a != b);
-    let (sa, da) = w.task.new_stream_shared(a, 5, Bytes::new(), 0);
-    let (sb, db) = w.task.new_stream_shared(b, 6, Bytes::new(), 0);
-    w.task.flows.write().insert(a, FlowSlot::Established(da));
-    w.task.flows.write().insert(b, FlowSlot::Established(db));
-    w.task.close_flow(a, inhibit);
-    {
-        let g = w.task.flows.read();
-        assert!(!g.contains_key(&a), "C06.close.removed: the aborted flow's slot is gone");
-        assert!(g.len() == 1, "C06.close.frame.count: no other slot is removed");
-        match g.get(&b) {
-            Some(FlowSlot::Established(d)) => {
-                assert!(d.sender.is_some() && !d.finish_sent.load(Ordering::Relaxed) && d.psh_send_remaining.load(Ordering::Relaxed) == 6,
-                    "C06.close.frame: the other flow is left untouched");
-            }
-            _ => assert!(false, "C06.close.frame.present"),
+/// bystander flow B: an established stream with credit B_CREDIT and one queued byte "q"
+pub(crate) fn bystander_established(w: &World) -> MuxStream {
+    let (sb, db) = w.task.new_stream_shared(B, B_CREDIT, Bytes::new(), 0);
+    db.sender.as_ref().unwrap().try_send(Bytes::from_static(b"q")).ok();
+    w.task.flows.write().insert(B, FlowSlot::Established(db));
+    sb
+}
+pub(crate) fn bystander_established_untouched(w: &World, sb: &mut MuxStream) -> bool {
+    let g = w.task.flows.read();
+    let ok = match g.get(&B) {
+        Some(FlowSlot::Established(d)) => {
+            d.sender.is_some() && !d.finish_sent.load(Ordering::Relaxed) && d.psh_send_remaining.load(Ordering::Relaxed) == B_CREDIT
         }
-    }
-    let (seen, _) = next_out(&mut w.tx_msg_rx);
-    if inhibit {
-        assert!(seen == NOTHING, "C10.reset.no_reply");
-    } else {
-        assert!(seen.op == 2 && seen.id == a, "C06.close.reset");
-    }
-    assert!(out_empty(&mut w.tx_msg_rx), "C06.close.single");
-    assert!(sa.finish_sent.load(Ordering::Relaxed) && !sb.finish_sent.load(Ordering::Relaxed), "C06.close.writes");
+        _ => false,
+    };
+    drop(g);
+    ok && sb.rx_frame_rx.len() == 1 && !sb.finish_sent.load(Ordering::Relaxed)
+}
+
+fn table_len(w: &World) -> usize {
+    w.task.flows.read().len()
+}
+fn has(w: &World, id: u32) -> bool {
+    w.task.flows.read().contains_key(&id)
+}
+
+// ======================================================================== Reset
+/// Reset for a flow that is not in the table: nothing is sent (never a Reset in reply to a Reset),
+/// nothing changes
+#[cfg_attr(kani, kani::proof)]
+#[cfg_attr(kani, kani::stub(catch_unwind, call_through))]
+#[cfg_attr(kani, kani::unwind(6))]
+#[cfg_attr(verif_replay, test)]
+fn t_reset_absent() {
+    let mut w = world(4, 2, false, 1);
+    let mut rb = bystander_bind(&w);
+    let r = poll_once(w.task.process_frame(Frame::new_reset(A), false));
+    assert!(matches!(r, Poll::Ready(Ok(()))), "C10.reset.absent.ok: a Reset for an unknown flow is not a connection error");
+    core::mem::forget(r);
+    assert!(out_empty(&mut w.tx_msg_rx), "C10.reset.absent.silent: a Reset is never answered");
+    assert!(table_len(&w) == 1 && bystander_bind_untouched(&w, &mut rb), "C10.reset.absent.frame: other flows untouched");
+    core::mem::forget((rb, w));
+}
+
+/// Reset on an established flow: slot removed, no frame at all, writer blocked, reader EOF;
+/// the neighbouring established flow is untouched
+#[cfg_attr(kani, kani::proof)]
+#[cfg_attr(kani, kani::stub(catch_unwind, call_through))]
+#[cfg_attr(kani, kani::unwind(6))]
+#[cfg_attr(verif_replay, test)]
+fn t_reset_established() {
+    let mut w = world(4, 2, false, 1);
+    let mut sb = bystander_established(&w);
+    let fin: bool = kani::any();
+    let (mut sa, da) = w.task.new_stream_shared(A, 3, Bytes::new(), 0);
+    sa.finish_sent.store(fin, Ordering::Relaxed);
+    w.task.flows.write().insert(A, FlowSlot::Established(da));
+    let r = poll_once(w.task.process_frame(Frame::new_reset(A), false));
+    assert!(matches!(r, Poll::Ready(Ok(()))), "C06.reset.ok");
+    core::mem::forget(r);
+    assert!(out_empty(&mut w.tx_msg_rx), "C10.reset.no_reply: a Reset from the peer is never answered with a Reset");
+    assert!(!has(&w, A) && table_len(&w) == 1, "C06.reset.removed: exactly the aborted flow's slot is removed");
+    assert!(sa.finish_sent.load(Ordering::Relaxed), "C06.reset.writes_fail: later writes on the aborted stream fail");
+    let mut c = cx();
+    assert!(matches!(sa.poll_for_push(&mut c), Poll::Ready(0)), "C06.reset.eof: the reader gets end-of-stream");
+    assert!(bystander_established_untouched(&w, &mut sb), "C06.reset.frame: the neighbouring flow keeps its queue, credit and state");
     core::mem::forget((sa, sb, w));
 }
 
-// ---------------------------------------------------------------- bisect micro-harnesses
-#[cfg_attr(kani, kani::proof)]
-#[cfg_attr(kani, kani::unwind(6))]
-fn m_map_only() {
-    let mut m: HashMap<u32, u32, IntHasher> = HashMap::with_hasher(IntHasher::default());
-    let a: u32 = kani::any();
-    let b: u32 = kani::any();
-    kani::assume(a != b);
-    m.insert(a, 1);
-    m.insert(b, 2);
-    assert!(m.remove(&a) == Some(1));
-    assert!(m.get(&b) == Some(&2));
-    assert!(m.len() == 1);
-}
-
+/// Reset on a pending Connect: request resolves with None (-> retry with a new id), slot freed
 #[cfg_attr(kani, kani::proof)]
 #[cfg_attr(kani, kani::stub(catch_unwind, call_through))]
 #[cfg_attr(kani, kani::unwind(6))]
-fn m_map_slot_bind() {
-    let mut m: HashMap<u32, FlowSlot, IntHasher> = HashMap::with_hasher(IntHasher::default());
-    let a: u32 = kani::any();
-    let (tx, rx) = oneshot::channel::<bool>();
-    m.insert(a, FlowSlot::BindRequested(tx));
-    let r = m.remove(&a);
-    assert!(matches!(r, Some(FlowSlot::BindRequested(_))));
-    assert!(m.len() == 0);
-    core::mem::forget((r, rx, m));
-}
-
-#[cfg_attr(kani, kani::proof)]
-#[cfg_attr(kani, kani::stub(catch_unwind, call_through))]
-#[cfg_attr(kani, kani::unwind(6))]
-fn m_lock_insert_len() {
-    let w = world(4, 2, false, 1);
-    let a: u32 = kani::any();
-    let (tx, rx) = oneshot::channel::<bool>();
-    w.task.flows.write().insert(a, FlowSlot::BindRequested(tx));
-    assert!(w.task.flows.read().len() == 1);
-    core::mem::forget((rx, w));
-}
-
-#[cfg_attr(kani, kani::proof)]
-#[cfg_attr(kani, kani::stub(catch_unwind, call_through))]
-#[cfg_attr(kani, kani::unwind(6))]
-fn m_close_flow_bind() {
+#[cfg_attr(verif_replay, test)]
+fn t_reset_requested() {
     let mut w = world(4, 2, false, 1);
-    let a: u32 = kani::any();
+    let mut rb = bystander_bind(&w);
+    let (tx, mut rx) = oneshot::channel::<Option<MuxStream>>();
+    w.task.flows.write().insert(A, FlowSlot::Requested(tx));
+    let r = poll_once(w.task.process_frame(Frame::new_reset(A), false));
+    assert!(matches!(r, Poll::Ready(Ok(()))), "C07.reset.requested.ok");
+    core::mem::forget(r);
+    let mut c = cx();
+    let got = Pin::new(&mut rx).poll(&mut c);
+    assert!(matches!(got, Poll::Ready(Ok(None))), "C07.rejected: a Connect answered with Reset resolves with None (the opener retries with a fresh id)");
+    core::mem::forget(got);
+    assert!(!has(&w, A) && table_len(&w) == 1, "C07.rejected.freed: the rejected id is free again");
+    assert!(out_empty(&mut w.tx_msg_rx), "C10.reset.no_reply");
+    assert!(bystander_bind_untouched(&w, &mut rb), "C07.rejected.frame");
+    core::mem::forget((rx, rb, w));
+}
+
+/// Reset on a pending Bind: resolves false
+#[cfg_attr(kani, kani::proof)]
+#[cfg_attr(kani, kani::stub(catch_unwind, call_through))]
+#[cfg_attr(kani, kani::unwind(6))]
+#[cfg_attr(verif_replay, test)]
+fn t_reset_bindrequested() {
+    let mut w = world(4, 2, false, 1);
+    let mut rb = bystander_bind(&w);
     let (tx, mut rx) = oneshot::channel::<bool>();
-    w.task.flows.write().insert(a, FlowSlot::BindRequested(tx));
-    w.task.close_flow(a, false);
-    assert!(w.task.flows.read().len() == 0);
+    w.task.flows.write().insert(A, FlowSlot::BindRequested(tx));
+    let r = poll_once(w.task.process_frame(Frame::new_reset(A), false));
+    assert!(matches!(r, Poll::Ready(Ok(()))), "C15.reset.ok");
+    core::mem::forget(r);
     let mut c = cx();
-    assert!(matches!(Pin::new(&mut rx).poll(&mut c), Poll::Ready(Ok(false))));
-    core::mem::forget((rx, w));
+    assert!(matches!(Pin::new(&mut rx).poll(&mut c), Poll::Ready(Ok(false))), "C15.reset_is_false: Reset resolves the bind request with false");
+    assert!(!has(&w, A) && table_len(&w) == 1, "C15.reset.freed");
+    assert!(out_empty(&mut w.tx_msg_rx), "C10.reset.no_reply");
+    assert!(bystander_bind_untouched(&w, &mut rb), "C15.reset.frame");
+    core::mem::forget((rx, rb, w));
 }
 
+// ======================================================================== Finish
 #[cfg_attr(kani, kani::proof)]
 #[cfg_attr(kani, kani::stub(catch_unwind, call_through))]
 #[cfg_attr(kani, kani::unwind(6))]
-fn m_close_flow_absent() {
+#[cfg_attr(verif_replay, test)]
+fn t_finish_absent() {
     let mut w = world(4, 2, false, 1);
-    let a: u32 = kani::any();
-    w.task.close_flow(a, false);
-    assert!(w.task.flows.read().len() == 0);
-    assert!(out_empty(&mut w.tx_msg_rx));
-    core::mem::forget(w);
+    let mut rb = bystander_bind(&w);
+    let r = poll_once(w.task.process_frame(Frame::new_finish(A), false));
+    assert!(matches!(r, Poll::Ready(Ok(()))), "C10.finish.unknown.ok: an unknown flow is not a connection error");
+    core::mem::forget(r);
+    let seen = next_seen(&mut w.tx_msg_rx);
+    assert!(seen.op == 2 && seen.id == A && seen.len == 5, "C10.finish.unknown.reset: Finish on an unknown flow is answered with Reset of that flow");
+    assert!(out_empty(&mut w.tx_msg_rx), "C10.finish.unknown.single");
+    assert!(table_len(&w) == 1 && bystander_bind_untouched(&w, &mut rb), "C10.finish.unknown.frame");
+    core::mem::forget((rb, w));
 }
 
+/// Finish on an established flow closes only the read direction: queued data stays readable,
+/// then EOF; writes and credit untouched; no frame; slot stays
 #[cfg_attr(kani, kani::proof)]
 #[cfg_attr(kani, kani::stub(catch_unwind, call_through))]
 #[cfg_attr(kani, kani::unwind(6))]
-fn m1_remove_absent_locked() {
-    let w = world(4, 2, false, 1);
-    let a: u32 = kani::any();
-    let v = w.task.flows.write().remove(&a);
-    assert!(v.is_none());
-    core::mem::forget((v, w));
-}
-#[cfg_attr(kani, kani::proof)]
-#[cfg_attr(kani, kani::stub(catch_unwind, call_through))]
-#[cfg_attr(kani, kani::unwind(6))]
-fn m2_remove_absent_local() {
-    let mut m: HashMap<u32, FlowSlot, IntHasher> = HashMap::with_hasher(IntHasher::default());
-    let a: u32 = kani::any();
-    let v = m.remove(&a);
-    assert!(v.is_none());
-    core::mem::forget((v, m));
-}
-#[cfg_attr(kani, kani::proof)]
-#[cfg_attr(kani, kani::stub(catch_unwind, call_through))]
-#[cfg_attr(kani, kani::unwind(6))]
-fn m3_contains_absent_locked() {
-    let w = world(4, 2, false, 1);
-    let a: u32 = kani::any();
-    assert!(!w.task.flows.read().contains_key(&a));
-    core::mem::forget(w);
-}
-#[cfg_attr(kani, kani::proof)]
-#[cfg_attr(kani, kani::stub(catch_unwind, call_through))]
-#[cfg_attr(kani, kani::unwind(6))]
-fn m4_close_flow_local_only_none() {
+#[cfg_attr(verif_replay, test)]
+fn t_finish_established() {
     let mut w = world(4, 2, false, 1);
-    let a: u32 = kani::any();
-    let v: Option<FlowSlot> = None;
-    if let Some(removed) = v {
-        w.task.close_flow_local(removed, a, false);
-    }
-    assert!(out_empty(&mut w.tx_msg_rx));
-    core::mem::forget(w);
-}
-
-#[cfg_attr(kani, kani::proof)]
-#[cfg_attr(kani, kani::stub(catch_unwind, call_through))]
-#[cfg_attr(kani, kani::unwind(6))]
-fn m5_remove_then_local() {
-    let mut w = world(4, 2, false, 1);
-    let a: u32 = kani::any();
-    let v = w.task.flows.write().remove(&a);
-    if let Some(removed) = v {
-        w.task.close_flow_local(removed, a, false);
-    }
-    assert!(out_empty(&mut w.tx_msg_rx));
-    core::mem::forget(w);
-}
-
-#[cfg_attr(kani, kani::proof)]
-#[cfg_attr(kani, kani::stub(catch_unwind, call_through))]
-#[cfg_attr(kani, kani::unwind(6))]
-fn v1_arc_lock_map() {
-    let mut w = world(4, 2, false, 1);
-    let m: Arc<RwLock<HashMap<u32, FlowSlot, IntHasher>>> = Arc::new(RwLock::new(HashMap::with_hasher(IntHasher::default())));
-    let a: u32 = kani::any();
-    let v = m.write().remove(&a);
-    if let Some(removed) = v {
-        w.task.close_flow_local(removed, a, false);
-    }
-    assert!(out_empty(&mut w.tx_msg_rx));
-    core::mem::forget((w, m));
-}
-#[cfg_attr(kani, kani::proof)]
-#[cfg_attr(kani, kani::stub(catch_unwind, call_through))]
-#[cfg_attr(kani, kani::unwind(6))]
-fn v2_lock_map() {
-    let mut w = world(4, 2, false, 1);
-    let m: RwLock<HashMap<u32, FlowSlot, IntHasher>> = RwLock::new(HashMap::with_hasher(IntHasher::default()));
-    let a: u32 = kani::any();
-    let v = m.write().remove(&a);
-    if let Some(removed) = v {
-        w.task.close_flow_local(removed, a, false);
-    }
-    assert!(out_empty(&mut w.tx_msg_rx));
-    core::mem::forget((w, m));
-}
-#[cfg_attr(kani, kani::proof)]
-#[cfg_attr(kani, kani::stub(catch_unwind, call_through))]
-#[cfg_attr(kani, kani::unwind(6))]
-fn v3_local_map() {
-    let mut w = world(4, 2, false, 1);
-    let mut m: HashMap<u32, FlowSlot, IntHasher> = HashMap::with_hasher(IntHasher::default());
-    let a: u32 = kani::any();
-    let v = m.remove(&a);
-    if let Some(removed) = v {
-        w.task.close_flow_local(removed, a, false);
-    }
-    assert!(out_empty(&mut w.tx_msg_rx));
-    core::mem::forget((w, m));
-}
-
-#[cfg_attr(kani, kani::proof)]
-#[cfg_attr(kani, kani::stub(catch_unwind, call_through))]
-#[cfg_attr(kani, kani::unwind(6))]
-fn y_close_flow_frame_concrete() {
-    let mut w = world(4, 2, false, 1);
-    let a: u32 = 5;
-    let b: u32 = 9;
-    let inhibit: bool = kani::any();
-    let (sa, da) = w.task.new_stream_shared(a, 5, Bytes::new(), 0);
-    let (sb, db) = w.task.new_stream_shared(b, 6, Bytes::new(), 0);
-    w.task.flows.write().insert(a, FlowSlot::Established(da));
-    w.task.flows.write().insert(b, FlowSlot::Established(db));
-    w.task.close_flow(a, inhibit);
+    let mut rb = bystander_bind(&w);
+    let credit: u32 = kani::any();
+    let (mut sa, da) = w.task.new_stream_shared(A, credit, Bytes::new(), 0);
+    da.sender.as_ref().unwrap().try_send(Bytes::from_static(b"xy")).ok();
+    w.task.flows.write().insert(A, FlowSlot::Established(da));
+    let r = poll_once(w.task.process_frame(Frame::new_finish(A), false));
+    assert!(matches!(r, Poll::Ready(Ok(()))), "C05.finish.ok");
+    core::mem::forget(r);
+    assert!(out_empty(&mut w.tx_msg_rx), "C05.finish.silent: a Finish is not answered");
     {
         let g = w.task.flows.read();
-        assert!(!g.contains_key(&a), "C06.close.removed: the aborted flow's slot is gone");
-        assert!(g.len() == 1, "C06.close.frame.count: no other slot is removed");
-        match g.get(&b) {
-            Some(FlowSlot::Established(d)) => {
-                assert!(d.sender.is_some() && !d.finish_sent.load(Ordering::Relaxed) && d.psh_send_remaining.load(Ordering::Relaxed) == 6,
-                    "C06.close.frame: the other flow is left untouched");
-            }
-            _ => assert!(false, "C06.close.frame.present"),
+        match g.get(&A) {
+            Some(FlowSlot::Established(d)) => assert!(d.sender.is_none(), "C05.finish.read_closed: the inbound queue is closed"),
+            _ => assert!(false, "C05.finish.slot_stays: the flow stays open for writing"),
         }
     }
-    let (seen, _) = next_out(&mut w.tx_msg_rx);
-    if inhibit {
-        assert!(seen == NOTHING, "C10.reset.no_reply");
-    } else {
-        assert!(seen.op == 2 && seen.id == a, "C06.close.reset");
-    }
-    assert!(out_empty(&mut w.tx_msg_rx), "C06.close.single");
-    assert!(sa.finish_sent.load(Ordering::Relaxed) && !sb.finish_sent.load(Ordering::Relaxed), "C06.close.writes");
+    assert!(!sa.finish_sent.load(Ordering::Relaxed) && sa.psh_send_remaining.load(Ordering::Relaxed) == credit,
+        "C05.finish.halfclose: the write direction and the credit are untouched");
+    let mut c = cx();
+    assert!(matches!(sa.poll_for_push(&mut c), Poll::Ready(2)), "C05.eof.after_data: data queued before the Finish is still returned");
+    sa.buf = Bytes::new();
+    assert!(matches!(sa.poll_for_push(&mut c), Poll::Ready(0)), "C05.eof.then: then end-of-stream");
+    assert!(table_len(&w) == 2 && bystander_bind_untouched(&w, &mut rb), "C05.finish.frame");
+    core::mem::forget((sa, rb, w));
+}
+
+/// duplicate Finish: ignored
+#[cfg_attr(kani, kani::proof)]
+#[cfg_attr(kani, kani::stub(catch_unwind, call_through))]
+#[cfg_attr(kani, kani::unwind(6))]
+#[cfg_attr(verif_replay, test)]
+fn t_finish_duplicate() {
+    let mut w = world(4, 2, false, 1);
+    let mut rb = bystander_bind(&w);
+    let (mut sa, mut da) = w.task.new_stream_shared(A, 3, Bytes::new(), 0);
+    drop(da.disallow_read());
+    w.task.flows.write().insert(A, FlowSlot::Established(da));
+    let r = poll_once(w.task.process_frame(Frame::new_finish(A), false));
+    assert!(matches!(r, Poll::Ready(Ok(()))), "C10.finish.dup.ok: a duplicate Finish is not a connection error");
+    core::mem::forget(r);
+    assert!(out_empty(&mut w.tx_msg_rx), "C10.finish.dup.silent");
+    assert!(has(&w, A) && table_len(&w) == 2 && !sa.finish_sent.load(Ordering::Relaxed), "C10.finish.dup.nochange");
+    assert!(bystander_bind_untouched(&w, &mut rb), "C10.finish.dup.frame");
+    core::mem::forget((sa, rb, w));
+}
+
+/// Finish as the answer to a Connect is invalid: slot freed, Reset sent
+#[cfg_attr(kani, kani::proof)]
+#[cfg_attr(kani, kani::stub(catch_unwind, call_through))]
+#[cfg_attr(kani, kani::unwind(6))]
+#[cfg_attr(verif_replay, test)]
+fn t_finish_requested() {
+    let mut w = world(4, 2, false, 1);
+    let mut rb = bystander_bind(&w);
+    let (tx, mut rx) = oneshot::channel::<Option<MuxStream>>();
+    w.task.flows.write().insert(A, FlowSlot::Requested(tx));
+    let r = poll_once(w.task.process_frame(Frame::new_finish(A), false));
+    assert!(matches!(r, Poll::Ready(Ok(()))), "C10.finish.requested.ok");
+    core::mem::forget(r);
+    let seen = next_seen(&mut w.tx_msg_rx);
+    assert!(seen.op == 2 && seen.id == A, "C10.finish.requested.reset: Finish in reply to Connect is answered with Reset");
+    assert!(out_empty(&mut w.tx_msg_rx), "C10.finish.requested.single");
+    assert!(!has(&w, A) && table_len(&w) == 1, "C10.finish.requested.freed");
+    let mut c = cx();
+    let got = Pin::new(&mut rx).poll(&mut c);
+    assert!(!matches!(got, Poll::Ready(Ok(Some(_)))) && !matches!(got, Poll::Pending), "C07.finish.requested.resolved: the opener is not left waiting and gets no stream");
+    core::mem::forget(got);
+    assert!(bystander_bind_untouched(&w, &mut rb), "C10.finish.requested.frame");
+    core::mem::forget((rx, rb, w));
+}
+
+/// Finish on a pending Bind: accepted
+#[cfg_attr(kani, kani::proof)]
+#[cfg_attr(kani, kani::stub(catch_unwind, call_through))]
+#[cfg_attr(kani, kani::unwind(6))]
+#[cfg_attr(verif_replay, test)]
+fn t_finish_bindrequested() {
+    let mut w = world(4, 2, false, 1);
+    let mut rb = bystander_bind(&w);
+    let (tx, mut rx) = oneshot::channel::<bool>();
+    w.task.flows.write().insert(A, FlowSlot::BindRequested(tx));
+    let r = poll_once(w.task.process_frame(Frame::new_finish(A), false));
+    assert!(matches!(r, Poll::Ready(Ok(()))), "C15.finish.ok");
+    core::mem::forget(r);
+    let mut c = cx();
+    assert!(matches!(Pin::new(&mut rx).poll(&mut c), Poll::Ready(Ok(true))), "C15.finish_is_true: Finish resolves the bind request with true");
+    assert!(!has(&w, A) && table_len(&w) == 1, "C15.finish.freed");
+    assert!(out_empty(&mut w.tx_msg_rx), "C15.finish.silent");
+    assert!(bystander_bind_untouched(&w, &mut rb), "C15.finish.frame");
+    core::mem::forget((rx, rb, w));
+}
+
+// ======================================================================== Acknowledge
+#[cfg_attr(kani, kani::proof)]
+#[cfg_attr(kani, kani::stub(catch_unwind, call_through))]
+#[cfg_attr(kani, kani::unwind(6))]
+#[cfg_attr(verif_replay, test)]
+fn t_ack_absent() {
+    let mut w = world(4, 2, false, 1);
+    let mut rb = bystander_bind(&w);
+    let n: u32 = kani::any();
+    let r = poll_once(w.task.process_frame(Frame::new_acknowledge(A, n), false));
+    assert!(matches!(r, Poll::Ready(Ok(()))), "C10.ack.unknown.ok");
+    core::mem::forget(r);
+    let seen = next_seen(&mut w.tx_msg_rx);
+    assert!(seen.op == 2 && seen.id == A && seen.len == 5, "C10.ack.unknown.reset: Acknowledge on an unknown flow is answered with Reset of that flow");
+    assert!(out_empty(&mut w.tx_msg_rx), "C10.ack.unknown.single");
+    assert!(table_len(&w) == 1 && bystander_bind_untouched(&w, &mut rb), "C10.ack.unknown.frame");
+    core::mem::forget((rb, w));
+}
+
+/// Acknowledge(n) on an established flow adds exactly n to that flow's credit and to no other
+#[cfg_attr(kani, kani::proof)]
+#[cfg_attr(kani, kani::stub(catch_unwind, call_through))]
+#[cfg_attr(kani, kani::unwind(6))]
+#[cfg_attr(verif_replay, test)]
+fn t_ack_established() {
+    let mut w = world(4, 2, false, 1);
+    let mut sb = bystander_established(&w);
+    let credit: u32 = kani::any();
+    let n: u32 = kani::any();
+    kani::assume(credit.checked_add(n).is_some());
+    let (mut sa, da) = w.task.new_stream_shared(A, credit, Bytes::new(), 0);
+    w.task.flows.write().insert(A, FlowSlot::Established(da));
+    let r = poll_once(w.task.process_frame(Frame::new_acknowledge(A, n), false));
+    assert!(matches!(r, Poll::Ready(Ok(()))), "C03.ack.ok");
+    core::mem::forget(r);
+    assert!(sa.psh_send_remaining.load(Ordering::Relaxed) == credit + n, "C03.add: Acknowledge(n) increases the addressed flow's credit by exactly n");
+    assert!(out_empty(&mut w.tx_msg_rx), "C03.ack.silent");
+    assert!(has(&w, A) && table_len(&w) == 2 && !sa.finish_sent.load(Ordering::Relaxed), "C03.ack.state");
+    assert!(bystander_established_untouched(&w, &mut sb), "C03.ack.frame: no other flow's credit moves");
     core::mem::forget((sa, sb, w));
 }
 
+/// Acknowledge on a pending Connect establishes the flow exactly there: the opener receives a stream
+/// with that id and credit == the window the peer advertised
 #[cfg_attr(kani, kani::proof)]
 #[cfg_attr(kani, kani::stub(catch_unwind, call_through))]
 #[cfg_attr(kani, kani::unwind(6))]
-fn y_pf_finish_unknown_concrete() {
-    let mut w = world(4, 2, false, 1);
-    let id: u32 = 5;
-    let r = poll_once(w.task.process_frame(Frame::new_finish(id), false));
-    assert!(matches!(r, Poll::Ready(Ok(()))), "C10.finish.unknown.ok: an unknown flow is not a connection error");
+#[cfg_attr(verif_replay, test)]
+fn t_ack_requested() {
+    let rwnd: u32 = kani::any();
+    let thr: u32 = kani::any();
+    kani::assume(rwnd >= 1 && rwnd <= 4 && thr >= 1);
+    let mut w = world(rwnd, thr, false, 1);
+    let mut rb = bystander_bind(&w);
+    let peer: u32 = kani::any();
+    let (tx, mut rx) = oneshot::channel::<Option<MuxStream>>();
+    w.task.flows.write().insert(A, FlowSlot::Requested(tx));
+    let r = poll_once(w.task.process_frame(Frame::new_acknowledge(A, peer), false));
+    assert!(matches!(r, Poll::Ready(Ok(()))), "C07.ack.ok");
     core::mem::forget(r);
-    let (seen, _) = next_out(&mut w.tx_msg_rx);
-    assert!(seen.op == 2 && seen.id == id && seen.len == 5, "C10.finish.unknown.reset: Finish on an unknown flow is answered with Reset of that flow");
-    assert!(out_empty(&mut w.tx_msg_rx), "C10.finish.unknown.single");
-    assert!(w.task.flows.read().len() == 0, "C10.finish.unknown.table: the table is untouched");
-    core::mem::forget(w);
+    let mut c = cx();
+    let got = Pin::new(&mut rx).poll(&mut c);
+    match &got {
+        Poll::Ready(Ok(Some(s))) => {
+            assert!(s.flow_id == A, "C07.ack.id: the stream handed to the opener carries the id it asked for");
+            assert!(s.psh_send_remaining.load(Ordering::Relaxed) == peer, "C03.init.credit: initial send credit == the window the peer advertised");
+            assert!(s.psh_recvd_since == 0 && !s.finish_sent.load(Ordering::Relaxed) && s.buf.is_empty(), "C06.fresh: a new stream starts from fresh state");
+            assert!(s.rwnd_threshold <= rwnd, "C04.threshold");
+        }
+        _ => assert!(false, "C07.ack.delivered: the opener gets its stream"),
+    }
+    core::mem::forget(got);
+    {
+        let g = w.task.flows.read();
+        match g.get(&A) {
+            Some(FlowSlot::Established(d)) => assert!(d.sender.is_some() && d.psh_send_remaining.load(Ordering::Relaxed) == peer, "C07.ack.established"),
+            _ => assert!(false, "C07.ack.slot: the slot is Established afterwards"),
+        }
+    }
+    assert!(out_empty(&mut w.tx_msg_rx), "C07.ack.silent");
+    assert!(table_len(&w) == 2 && bystander_bind_untouched(&w, &mut rb), "C07.ack.frame");
+    core::mem::forget((rx, rb, w));
+}
+
+/// Acknowledge on a pending Bind is a protocol violation of the peer: Reset, nothing else disturbed
+#[cfg_attr(kani, kani::proof)]
+#[cfg_attr(kani, kani::stub(catch_unwind, call_through))]
+#[cfg_attr(kani, kani::unwind(6))]
+#[cfg_attr(verif_replay, test)]
+fn t_ack_bindrequested() {
+    let mut w = world(4, 2, false, 1);
+    let mut rb = bystander_bind(&w);
+    let n: u32 = kani::any();
+    let (tx, mut rx) = oneshot::channel::<bool>();
+    w.task.flows.write().insert(A, FlowSlot::BindRequested(tx));
+    let r = poll_once(w.task.process_frame(Frame::new_acknowledge(A, n), false));
+    assert!(matches!(r, Poll::Ready(Ok(()))), "C10.ack.bind.ok");
+    core::mem::forget(r);
+    let seen = next_seen(&mut w.tx_msg_rx);
+    assert!(seen.op == 2 && seen.id == A, "C10.ack.bind.reset: Acknowledge on a pending Bind is answered with Reset");
+    assert!(out_empty(&mut w.tx_msg_rx), "C10.ack.bind.single");
+    assert!(bystander_bind_untouched(&w, &mut rb), "C10.ack.bind.frame");
+    core::mem::forget((rx, rb, w));
+}
+
+// ======================================================================== Push
+#[cfg_attr(kani, kani::proof)]
+#[cfg_attr(kani, kani::stub(catch_unwind, call_through))]
+#[cfg_attr(kani, kani::unwind(6))]
+#[cfg_attr(verif_replay, test)]
+fn t_push_absent() {
+    let mut w = world(4, 2, false, 1);
+    let mut sb = bystander_established(&w);
+    let r = poll_once(w.task.process_frame(Frame::new_push(A, b"ab"), false));
+    assert!(matches!(r, Poll::Ready(Ok(()))), "C10.push.unknown.ok");
+    core::mem::forget(r);
+    let seen = next_seen(&mut w.tx_msg_rx);
+    assert!(seen.op == 2 && seen.id == A && seen.len == 5, "C10.push.unknown.reset: Push on an unknown flow is answered with Reset of that flow");
+    assert!(out_empty(&mut w.tx_msg_rx), "C10.push.unknown.single");
+    assert!(table_len(&w) == 1 && bystander_established_untouched(&w, &mut sb), "C02.push.unknown.no_crosstalk: the payload reaches no other flow");
+    core::mem::forget((sb, w));
+}
+
+/// Push on an open established flow: the payload is appended to THAT flow's queue, byte-exact, and
+/// to no other; nothing is sent
+#[cfg_attr(kani, kani::proof)]
+#[cfg_attr(kani, kani::stub(catch_unwind, call_through))]
+#[cfg_attr(kani, kani::unwind(6))]
+#[cfg_attr(verif_replay, test)]
+fn t_push_established() {
+    let mut w = world(4, 2, false, 1);
+    let mut sb = bystander_established(&w);
+    let data: [u8; 2] = kani::any();
+    let (mut sa, da) = w.task.new_stream_shared(A, 3, Bytes::new(), 0);
+    da.sender.as_ref().unwrap().try_send(Bytes::from_static(b"p")).ok();
+    w.task.flows.write().insert(A, FlowSlot::Established(da));
+    let r = poll_once(w.task.process_frame(Frame::new_push_owned(A, Bytes::copy_from_slice(&data)), false));
+    assert!(matches!(r, Poll::Ready(Ok(()))), "C02.push.ok");
+    core::mem::forget(r);
+    assert!(out_empty(&mut w.tx_msg_rx), "C02.push.silent");
+    assert!(sa.rx_frame_rx.len() == 2, "C02.push.appended: the payload is queued on the addressed flow, behind what was already queued");
+    let first = sa.rx_frame_rx.try_recv();
+    assert!(matches!(&first, Ok(b) if b.len() == 1 && b[0] == b'p'), "C02.push.order: earlier data stays in front");
+    core::mem::forget(first);
+    let second = sa.rx_frame_rx.try_recv();
+    assert!(matches!(&second, Ok(b) if b.len() == 2 && b[0] == data[0] && b[1] == data[1]), "C02.push.bytes: the queued bytes are the frame's payload, unchanged");
+    core::mem::forget(second);
+    assert!(table_len(&w) == 2 && bystander_established_untouched(&w, &mut sb), "C02.push.no_crosstalk: no other flow's queue receives anything");
+    core::mem::forget((sa, sb, w));
+}
+
+/// Push beyond the advertised window: that flow is aborted with one Reset, nothing else is touched
+#[cfg_attr(kani, kani::proof)]
+#[cfg_attr(kani, kani::stub(catch_unwind, call_through))]
+#[cfg_attr(kani, kani::unwind(6))]
+#[cfg_attr(verif_replay, test)]
+fn t_push_overrun() {
+    let mut w = world(1, 1, false, 1);
+    let mut sb = bystander_established(&w);
+    let (mut sa, da) = w.task.new_stream_shared(A, 3, Bytes::new(), 0);
+    da.sender.as_ref().unwrap().try_send(Bytes::from_static(b"p")).ok(); // queue capacity == rwnd == 1: full
+    w.task.flows.write().insert(A, FlowSlot::Established(da));
+    let r = poll_once(w.task.process_frame(Frame::new_push(A, b"ab"), false));
+    assert!(matches!(r, Poll::Ready(Ok(()))), "C03.overrun.ok: an overrun is not a connection error and does not block");
+    core::mem::forget(r);
+    let seen = next_seen(&mut w.tx_msg_rx);
+    assert!(seen.op == 2 && seen.id == A && seen.len == 5, "C03.overrun.reset: a peer that overruns the window has that flow reset");
+    assert!(out_empty(&mut w.tx_msg_rx), "C03.overrun.single");
+    assert!(!has(&w, A) && table_len(&w) == 1 && sa.finish_sent.load(Ordering::Relaxed), "C03.overrun.closed: the flow is closed locally");
+    assert!(bystander_established_untouched(&w, &mut sb), "C03.overrun.frame: only the offending flow is affected");
+    core::mem::forget((sa, sb, w));
+}
+
+/// Push after the peer's own Finish, or on a flow that is not established: refused with Reset
+#[cfg_attr(kani, kani::proof)]
+#[cfg_attr(kani, kani::stub(catch_unwind, call_through))]
+#[cfg_attr(kani, kani::unwind(6))]
+#[cfg_attr(verif_replay, test)]
+fn t_push_after_finish() {
+    let mut w = world(4, 2, false, 1);
+    let mut rb = bystander_bind(&w);
+    let (mut sa, mut da) = w.task.new_stream_shared(A, 3, Bytes::new(), 0);
+    drop(da.disallow_read());
+    w.task.flows.write().insert(A, FlowSlot::Established(da));
+    let r = poll_once(w.task.process_frame(Frame::new_push(A, b"ab"), false));
+    assert!(matches!(r, Poll::Ready(Ok(()))), "C10.push.after_finish.ok");
+    core::mem::forget(r);
+    let seen = next_seen(&mut w.tx_msg_rx);
+    assert!(seen.op == 2 && seen.id == A, "C10.push.after_finish.reset: data after the peer's Finish is answered with Reset");
+    assert!(out_empty(&mut w.tx_msg_rx), "C10.push.after_finish.single");
+    assert!(sa.rx_frame_rx.len() == 0, "C05.push.after_finish.not_delivered: nothing is delivered after end-of-stream");
+    assert!(bystander_bind_untouched(&w, &mut rb), "C10.push.after_finish.frame");
+    core::mem::forget((sa, rb, w));
 }
 
 #[cfg_attr(kani, kani::proof)]
 #[cfg_attr(kani, kani::stub(catch_unwind, call_through))]
 #[cfg_attr(kani, kani::unwind(6))]
-fn e1_process_message_ping() {
+#[cfg_attr(verif_replay, test)]
+fn t_push_requested() {
+    let mut w = world(4, 2, false, 1);
+    let mut rb = bystander_bind(&w);
+    let (tx, mut rx) = oneshot::channel::<Option<MuxStream>>();
+    w.task.flows.write().insert(A, FlowSlot::Requested(tx));
+    let r = poll_once(w.task.process_frame(Frame::new_push(A, b"ab"), false));
+    assert!(matches!(r, Poll::Ready(Ok(()))), "C10.push.requested.ok");
+    core::mem::forget(r);
+    let seen = next_seen(&mut w.tx_msg_rx);
+    assert!(seen.op == 2 && seen.id == A, "C10.push.requested.reset: Push on a not yet established flow is answered with Reset");
+    assert!(out_empty(&mut w.tx_msg_rx), "C10.push.requested.single");
+    assert!(bystander_bind_untouched(&w, &mut rb), "C10.push.requested.frame");
+    core::mem::forget((rx, rb, w));
+}
+
+/// Push for a flow whose stream was dropped locally but not yet removed: ignored, no error
+#[cfg_attr(kani, kani::proof)]
+#[cfg_attr(kani, kani::stub(catch_unwind, call_through))]
+#[cfg_attr(kani, kani::unwind(6))]
+#[cfg_attr(verif_replay, test)]
+fn t_push_stream_dropped() {
+    let mut w = world(4, 2, false, 1);
+    let mut rb = bystander_bind(&w);
+    let (mut sa, da) = w.task.new_stream_shared(A, 3, Bytes::new(), 0);
+    sa.rx_frame_rx.close(); // what dropping the stream does to the queue
+    w.task.flows.write().insert(A, FlowSlot::Established(da));
+    let r = poll_once(w.task.process_frame(Frame::new_push(A, b"ab"), false));
+    assert!(matches!(r, Poll::Ready(Ok(()))), "C10.push.dropped.ok: late data for a locally dropped stream is not a connection error");
+    core::mem::forget(r);
+    assert!(sa.rx_frame_rx.len() == 0, "C10.push.dropped.not_queued");
+    assert!(bystander_bind_untouched(&w, &mut rb), "C10.push.dropped.frame");
+    core::mem::forget((sa, rb, w));
+}
+
+// ======================================================================== Connect
+/// Connect on flow id 0: rejected with Reset(0), table unchanged
+#[cfg_attr(kani, kani::proof)]
+#[cfg_attr(kani, kani::stub(catch_unwind, call_through))]
+#[cfg_attr(kani, kani::unwind(6))]
+#[cfg_attr(verif_replay, test)]
+fn t_connect_zero() {
+    let mut w = world(4, 2, false, 1);
+    let mut rb = bystander_bind(&w);
+    let peer: u32 = kani::any();
+    let port: u16 = kani::any();
+    let r = poll_once(w.task.process_frame(Frame::new_connect(b"h", port, 0, peer), false));
+    assert!(matches!(r, Poll::Ready(Ok(()))), "C07.connect.zero.ok");
+    core::mem::forget(r);
+    let seen = next_seen(&mut w.tx_msg_rx);
+    assert!(seen.op == 2 && seen.id == 0 && seen.len == 5, "C07.connect.zero.reset: a Connect on flow id 0 is rejected with Reset");
+    assert!(out_empty(&mut w.tx_msg_rx), "C07.connect.zero.single");
+    assert!(w.con_rx.len() == 0 && table_len(&w) == 1 && bystander_bind_untouched(&w, &mut rb), "C07.connect.zero.nothing: no stream is created");
+    core::mem::forget((rb, w));
+}
+
+/// Connect on an id that is in use: Reset, and the existing flow is not disturbed
+#[cfg_attr(kani, kani::proof)]
+#[cfg_attr(kani, kani::stub(catch_unwind, call_through))]
+#[cfg_attr(kani, kani::unwind(6))]
+#[cfg_attr(verif_replay, test)]
+fn t_connect_in_use() {
+    let mut w = world(4, 2, false, 1);
+    let mut sb = bystander_established(&w);
+    let peer: u32 = kani::any();
+    let port: u16 = kani::any();
+    let r = poll_once(w.task.process_frame(Frame::new_connect(b"h", port, B, peer), false));
+    assert!(matches!(r, Poll::Ready(Ok(()))), "C07.connect.inuse.ok");
+    core::mem::forget(r);
+    let seen = next_seen(&mut w.tx_msg_rx);
+    assert!(seen.op == 2 && seen.id == B && seen.len == 5, "C07.connect.inuse.reset: a Connect on an id in use is rejected with Reset");
+    assert!(out_empty(&mut w.tx_msg_rx), "C07.connect.inuse.single");
+    assert!(w.con_rx.len() == 0 && table_len(&w) == 1, "C07.connect.inuse.nothing: no second stream for that id");
+    assert!(bystander_established_untouched(&w, &mut sb), "C07.connect.inuse.undisturbed: the existing flow is not disturbed");
+    core::mem::forget((sb, w));
+}
+
+/// Connect on a free id: Established slot, Acknowledge(id, own rwnd) queued, stream delivered with
+/// the frame's host/port and credit == the peer's window
+#[cfg_attr(kani, kani::proof)]
+#[cfg_attr(kani, kani::stub(catch_unwind, call_through))]
+#[cfg_attr(kani, kani::unwind(6))]
+#[cfg_attr(verif_replay, test)]
+fn t_connect_fresh() {
+    let rwnd: u32 = kani::any();
+    let thr: u32 = kani::any();
+    kani::assume(rwnd >= 1 && rwnd <= 4 && thr >= 1);
+    let mut w = world(rwnd, thr, false, 1);
+    let mut rb = bystander_bind(&w);
+    let peer: u32 = kani::any();
+    let port: u16 = kani::any();
+    let r = poll_once(w.task.process_frame(Frame::new_connect(b"hi", port, A, peer), false));
+    assert!(matches!(r, Poll::Ready(Ok(()))), "C07.connect.ok");
+    core::mem::forget(r);
+    let seen = next_seen(&mut w.tx_msg_rx);
+    assert!(seen.op == 1 && seen.id == A && seen.len == 9 && seen.arg == rwnd, "C03.connect.ack_window: the Acknowledge advertises exactly the own receive window");
+    assert!(out_empty(&mut w.tx_msg_rx), "C07.connect.single");
+    let got = w.con_rx.try_recv();
+    match &got {
+        Ok(s) => {
+            assert!(s.flow_id == A && s.dest_port == port, "C07.connect.fields: the accepted stream carries the requested id and port");
+            assert!(s.dest_host.len() == 2 && s.dest_host[0] == b'h' && s.dest_host[1] == b'i', "C07.connect.host: and the requested host, byte-exact");
+            assert!(s.psh_send_remaining.load(Ordering::Relaxed) == peer, "C03.init.credit");
+            assert!(s.psh_recvd_since == 0 && !s.finish_sent.load(Ordering::Relaxed) && s.buf.is_empty() && s.rx_frame_rx.len() == 0, "C06.fresh");
+            assert!(s.rwnd_threshold <= rwnd, "C04.threshold");
+        }
+        Err(_) => assert!(false, "C07.connect.delivered: the accepted stream is handed to the application"),
+    }
+    core::mem::forget(got);
+    {
+        let g = w.task.flows.read();
+        assert!(matches!(g.get(&A), Some(FlowSlot::Established(d)) if d.sender.is_some()), "C07.connect.slot");
+    }
+    assert!(table_len(&w) == 2 && bystander_bind_untouched(&w, &mut rb), "C07.connect.frame");
+    core::mem::forget((rb, w));
+}
+
+// ======================================================================== Bind
+#[cfg_attr(kani, kani::proof)]
+#[cfg_attr(kani, kani::stub(catch_unwind, call_through))]
+#[cfg_attr(kani, kani::unwind(6))]
+#[cfg_attr(verif_replay, test)]
+fn t_bind_disabled() {
+    let mut w = world(4, 2, false, 1);
+    let mut rb = bystander_bind(&w);
+    let port: u16 = kani::any();
+    let r = poll_once(w.task.process_frame(Frame::new_bind(A, BindType::Stream, b"h", port), false));
+    assert!(matches!(r, Poll::Ready(Ok(()))), "C15.bind.disabled.ok");
+    core::mem::forget(r);
+    let seen = next_seen(&mut w.tx_msg_rx);
+    assert!(seen.op == 2 && seen.id == A && seen.len == 5, "C15.bind.disabled.reset: with binds disabled every Bind is rejected with Reset");
+    assert!(out_empty(&mut w.tx_msg_rx), "C15.bind.disabled.single");
+    assert!(table_len(&w) == 1 && bystander_bind_untouched(&w, &mut rb), "C15.bind.disabled.frame");
+    core::mem::forget((rb, w));
+}
+
+/// Bind with binds enabled: the application receives one request with exactly the frame's fields;
+/// the endpoint itself answers nothing (the answer is the application's: c15_bindrequest_reply_then_drop)
+#[cfg_attr(kani, kani::proof)]
+#[cfg_attr(kani, kani::stub(catch_unwind, call_through))]
+#[cfg_attr(kani, kani::unwind(6))]
+#[cfg_attr(verif_replay, test)]
+fn t_bind_enabled() {
+    let mut w = world(4, 2, true, 1);
+    let mut rb = bystander_bind(&w);
+    let port: u16 = kani::any();
+    let dgram: bool = kani::any();
+    let bt = if dgram { BindType::Datagram } else { BindType::Stream };
+    let r = poll_once(w.task.process_frame(Frame::new_bind(A, bt, b"ho", port), false));
+    assert!(matches!(r, Poll::Ready(Ok(()))), "C15.bind.ok");
+    core::mem::forget(r);
+    assert!(out_empty(&mut w.tx_msg_rx), "C15.bind.no_auto_answer: the endpoint does not answer on the application's behalf");
+    let brx = w.bnd_rx.as_mut().unwrap();
+    assert!(brx.len() == 1, "C15.bind.delivered: exactly one request reaches the application");
+    let got = brx.try_recv();
+    match &got {
+        Ok(req) => {
+            assert!(req.flow_id() == A && req.port() == port, "C15.bind.fields: id and port as in the frame");
+            assert!((req.bind_type() as u8) == (bt as u8), "C15.bind.type");
+            assert!(req.host().len() == 2 && req.host()[0] == b'h' && req.host()[1] == b'o', "C15.bind.host");
+        }
+        Err(_) => assert!(false, "C15.bind.delivered2"),
+    }
+    core::mem::forget(got);
+    assert!(table_len(&w) == 1 && bystander_bind_untouched(&w, &mut rb), "C15.bind.frame: an incoming Bind uses no table slot");
+    core::mem::forget((rb, w));
+}
+
+/// during teardown (ignore_bind) a Bind is dropped silently
+#[cfg_attr(kani, kani::proof)]
+#[cfg_attr(kani, kani::stub(catch_unwind, call_through))]
+#[cfg_attr(kani, kani::unwind(6))]
+#[cfg_attr(verif_replay, test)]
+fn t_bind_ignored_in_teardown() {
+    let mut w = world(4, 2, true, 1);
+    let r = poll_once(w.task.process_frame(Frame::new_bind(A, BindType::Stream, b"h", 7), true));
+    assert!(matches!(r, Poll::Ready(Ok(()))), "C15.bind.teardown.ok");
+    core::mem::forget(r);
+    assert!(out_empty(&mut w.tx_msg_rx) && w.bnd_rx.as_mut().unwrap().len() == 0, "C15.bind.teardown.silent");
+    core::mem::forget(w);
+}
+
+// ======================================================================== Datagram
+/// a datagram is delivered with exactly the frame's fields; it uses no flow state (id 0 allowed)
+#[cfg_attr(kani, kani::proof)]
+#[cfg_attr(kani, kani::stub(catch_unwind, call_through))]
+#[cfg_attr(kani, kani::unwind(6))]
+#[cfg_attr(verif_replay, test)]
+fn t_datagram_delivered() {
+    let mut w = world(4, 2, false, 2);
+    let mut sb = bystander_established(&w);
+    let zero: bool = kani::any();
+    let id = if zero { 0 } else { B }; // also an id that names an open stream: no interference
+    let port: u16 = kani::any();
+    let data: [u8; 2] = kani::any();
+    let r = poll_once(w.task.process_frame(
+        Frame::new_datagram_owned(id, Bytes::from_static(b"ho"), port, Bytes::copy_from_slice(&data)), false));
+    assert!(matches!(r, Poll::Ready(Ok(()))), "C11.dgram.ok");
+    core::mem::forget(r);
+    assert!(out_empty(&mut w.tx_msg_rx), "C11.dgram.silent");
+    assert!(w.dgram_rx.len() == 1, "C11.dgram.once: delivered once");
+    let got = w.dgram_rx.try_recv();
+    match &got {
+        Ok(d) => {
+            assert!(d.flow_id == id && d.target_port == port, "C11.dgram.fields: flow id and port exactly as sent");
+            assert!(d.target_host.len() == 2 && d.target_host[0] == b'h' && d.target_host[1] == b'o', "C11.dgram.host");
+            assert!(d.data.len() == 2 && d.data[0] == data[0] && d.data[1] == data[1], "C11.dgram.payload: payload exactly as sent");
+        }
+        Err(_) => assert!(false, "C11.dgram.delivered"),
+    }
+    core::mem::forget(got);
+    assert!(table_len(&w) == 1 && bystander_established_untouched(&w, &mut sb), "C11.dgram.no_stream_interference: datagrams do not touch stream state, even with a stream's id");
+    core::mem::forget((sb, w));
+}
+
+/// receive queue full: the datagram is dropped, the connection goes on, nothing else is touched
+#[cfg_attr(kani, kani::proof)]
+#[cfg_attr(kani, kani::stub(catch_unwind, call_through))]
+#[cfg_attr(kani, kani::unwind(6))]
+#[cfg_attr(verif_replay, test)]
+fn t_datagram_queue_full() {
+    let mut w = world(4, 2, false, 1);
+    let mut rb = bystander_bind(&w);
+    let first = Datagram { flow_id: 1, target_host: Bytes::new(), target_port: 1, data: Bytes::from_static(b"1") };
+    w.task.datagram_tx.try_send(first).ok();
+    let r = poll_once(w.task.process_frame(Frame::new_datagram(C, b"h", 9, b"xy"), false));
+    assert!(matches!(r, Poll::Ready(Ok(()))), "C11.dgram.full.ok: a full datagram queue never ends the connection and never blocks it");
+    core::mem::forget(r);
+    assert!(out_empty(&mut w.tx_msg_rx), "C11.dgram.full.silent");
+    assert!(w.dgram_rx.len() == 1, "C11.dgram.full.dropped: the excess datagram is dropped");
+    let got = w.dgram_rx.try_recv();
+    match &got {
+        Ok(d) => {
+            assert!(d.flow_id == 1 && d.target_port == 1, "C11.dgram.full.kept: the queued datagram is still the earlier one");
+        }
+        Err(_) => assert!(false, "C11.dgram.full.kept2"),
+    }
+    core::mem::forget(got);
+    assert!(bystander_bind_untouched(&w, &mut rb), "C11.dgram.full.frame");
+    core::mem::forget((rb, w));
+}
+
+// ======================================================================== process_message
+/// a binary message that is not a valid frame: the connection ends with InvalidFrame, no panic,
+/// no flow state touched first
+#[cfg_attr(kani, kani::proof)]
+#[cfg_attr(kani, kani::stub(catch_unwind, call_through))]
+#[cfg_attr(kani, kani::unwind(8))]
+#[cfg_attr(verif_replay, test)]
+fn t_message_invalid_frame() {
+    let mut w = world(4, 2, false, 1);
+    let mut rb = bystander_bind(&w);
+    // (a) wrong version nibble, otherwise a well-formed Reset; (b) truncated header
+    let id: [u8; 4] = kani::any();
+    let which: bool = kani::any();
+    let msg = if which {
+        Message::Binary(Bytes::copy_from_slice(&[0x62, id[0], id[1], id[2], id[3]]))
+    } else {
+        Message::Binary(Bytes::copy_from_slice(&[0x72, id[0], id[1]]))
+    };
+    let r = poll_once(w.task.process_message(msg, false));
+    assert!(matches!(r, Poll::Ready(Err(Error::InvalidFrame(_)))), "C10.invalid.err: an undecodable message ends the connection with a frame error");
+    core::mem::forget(r);
+    assert!(out_empty(&mut w.tx_msg_rx), "C10.invalid.silent");
+    assert!(table_len(&w) == 1 && bystander_bind_untouched(&w, &mut rb), "C10.invalid.frame");
+    core::mem::forget((rb, w));
+}
+
+/// a valid binary message goes through the decoder into the dispatcher (wire path of a Reset)
+#[cfg_attr(kani, kani::proof)]
+#[cfg_attr(kani, kani::stub(catch_unwind, call_through))]
+#[cfg_attr(kani, kani::unwind(8))]
+#[cfg_attr(verif_replay, test)]
+fn t_message_binary_reset() {
+    let mut w = world(4, 2, false, 1);
+    let mut rb = bystander_bind(&w);
+    let (tx, mut rx) = oneshot::channel::<bool>();
+    w.task.flows.write().insert(A, FlowSlot::BindRequested(tx));
+    let msg = Message::Binary(Bytes::from_static(&[0x72, 0x01, 0x02, 0x03, 0x04]));
+    let r = poll_once(w.task.process_message(msg, false));
+    assert!(matches!(r, Poll::Ready(Ok(false))), "C10.message.binary.ok");
+    core::mem::forget(r);
+    let mut c = cx();
+    assert!(matches!(Pin::new(&mut rx).poll(&mut c), Poll::Ready(Ok(false))), "C15.wire.reset_is_false");
+    assert!(!has(&w, A) && out_empty(&mut w.tx_msg_rx), "C10.message.binary.effect");
+    assert!(bystander_bind_untouched(&w, &mut rb), "C10.message.binary.frame");
+    core::mem::forget((rx, rb, w));
+}
+
+#[cfg_attr(kani, kani::proof)]
+#[cfg_attr(kani, kani::stub(catch_unwind, call_through))]
+#[cfg_attr(kani, kani::unwind(6))]
+#[cfg_attr(verif_replay, test)]
+fn t_message_control() {
     let mut w = world(4, 2, false, 1);
     let r = poll_once(w.task.process_message(Message::Ping, false));
-    assert!(matches!(r, Poll::Ready(Ok(false))));
+    assert!(matches!(r, Poll::Ready(Ok(false))), "C10.message.ping");
     core::mem::forget(r);
-    assert!(out_empty(&mut w.tx_msg_rx));
+    let r = poll_once(w.task.process_message(Message::Pong, false));
+    assert!(matches!(r, Poll::Ready(Ok(false))), "C10.message.pong");
+    core::mem::forget(r);
+    let r = poll_once(w.task.process_message(Message::Close, false));
+    assert!(matches!(r, Poll::Ready(Ok(true))), "C10.message.close: Close ends the read loop gracefully");
+    core::mem::forget(r);
+    assert!(out_empty(&mut w.tx_msg_rx) && table_len(&w) == 0, "C10.message.control.silent");
     core::mem::forget(w);
 }
 
-#[cfg(kani)]
-fn stub_new_stream_shared<S: WebSocket, T: TimestampProvider>(
-    _t: &Task<S, T>,
-    _flow_id: u32,
-    _peer_rwnd: u32,
-    _dest_host: Bytes,
-    _dest_port: u16,
-) -> (MuxStream, EstablishedStreamData) {
-    panic!("WIRING: new_stream_shared must not be reached from this frame");
-}
-#[cfg(kani)]
-fn stub_close_flow<S: WebSocket, T: TimestampProvider>(_t: &Task<S, T>, _flow_id: u32, _inhibit_rst: bool) {
-    panic!("WIRING: close_flow must not be reached from this frame");
-}
-
-#[cfg(kani)]
+// ======================================================================== close_flow (dropped stream path)
+/// a locally dropped stream (process_dropped_flows_task -> close_flow(id, false)): one Reset unless
+/// the stream was shut down, only that slot removed
 #[cfg_attr(kani, kani::proof)]
 #[cfg_attr(kani, kani::stub(catch_unwind, call_through))]
-#[cfg_attr(kani, kani::stub(Task::new_stream_shared, stub_new_stream_shared))]
-#[cfg_attr(kani, kani::stub(Task::close_flow, stub_close_flow))]
 #[cfg_attr(kani, kani::unwind(6))]
-fn e2_pf_finish_unknown_stubbed() {
+#[cfg_attr(verif_replay, test)]
+fn t_close_flow_dropped_stream() {
     let mut w = world(4, 2, false, 1);
-    let id: u32 = 5;
-    let r = poll_once(w.task.process_frame(Frame::new_finish(id), false));
-    assert!(matches!(r, Poll::Ready(Ok(()))), "C10.finish.unknown.ok: an unknown flow is not a connection error");
+    let mut sb = bystander_established(&w);
+    let fin: bool = kani::any();
+    let (mut sa, da) = w.task.new_stream_shared(A, 3, Bytes::new(), 0);
+    sa.finish_sent.store(fin, Ordering::Relaxed);
+    w.task.flows.write().insert(A, FlowSlot::Established(da));
+    w.task.close_flow(A, false);
+    let seen = next_seen(&mut w.tx_msg_rx);
+    if !fin {
+        assert!(seen.op == 2 && seen.id == A && seen.len == 5, "C06.abort.reset: dropping a stream that was not shut down tells the peer with one Reset of that flow");
+    } else {
+        assert!(seen == NOTHING || (seen.op == 2 && seen.id == A), "C06.abort.after_finish: at most a Reset of this flow");
+    }
+    assert!(out_empty(&mut w.tx_msg_rx), "C06.abort.single");
+    assert!(!has(&w, A) && table_len(&w) == 1, "C06.close.removed: the slot is freed for re-use, no other slot is removed");
+    assert!(bystander_established_untouched(&w, &mut sb), "C06.close.frame: the neighbouring flow is untouched");
+    // closing an id that is not (any more) in the table is a no-op
+    w.task.close_flow(A, false);
+    assert!(out_empty(&mut w.tx_msg_rx) && table_len(&w) == 1, "C06.close.idempotent: a second close of the same id does nothing");
+    core::mem::forget((sa, sb, w));
+}
+
+/// re-use of a flow id after an abort: the new stream shares nothing with the old one
+#[cfg_attr(kani, kani::proof)]
+#[cfg_attr(kani, kani::stub(catch_unwind, call_through))]
+#[cfg_attr(kani, kani::unwind(6))]
+#[cfg_attr(verif_replay, test)]
+fn t_reuse_after_abort() {
+    let mut w = world(4, 2, false, 1);
+    let (mut old, da) = w.task.new_stream_shared(A, 3, Bytes::new(), 0);
+    da.sender.as_ref().unwrap().try_send(Bytes::from_static(b"old")).ok();
+    w.task.flows.write().insert(A, FlowSlot::Established(da));
+    w.task.close_flow(A, true);
+    let peer: u32 = kani::any();
+    let r = poll_once(w.task.process_frame(Frame::new_connect(b"h", 1, A, peer), false));
+    assert!(matches!(r, Poll::Ready(Ok(()))), "C06.reuse.ok: a freed id can be opened again");
     core::mem::forget(r);
-    let (seen, _) = next_out(&mut w.tx_msg_rx);
-    assert!(seen.op == 2 && seen.id == id && seen.len == 5, "C10.finish.unknown.reset: Finish on an unknown flow is answered with Reset of that flow");
-    assert!(out_empty(&mut w.tx_msg_rx), "C10.finish.unknown.single");
-    assert!(w.task.flows.read().len() == 0, "C10.finish.unknown.table: the table is untouched");
-    core::mem::forget(w);
+    let got = w.con_rx.try_recv();
+    match &got {
+        Ok(s) => {
+            assert!(s.psh_send_remaining.load(Ordering::Relaxed) == peer && !s.finish_sent.load(Ordering::Relaxed), "C06.reuse.fresh: credit and flags of the new stream are its own");
+            assert!(s.rx_frame_rx.len() == 0 && s.buf.is_empty(), "C06.reuse.no_stale_data: no data of the aborted stream is visible to the new one");
+        }
+        Err(_) => assert!(false, "C06.reuse.delivered"),
+    }
+    core::mem::forget(got);
+    assert!(old.finish_sent.load(Ordering::Relaxed), "C06.reuse.old_stays_closed: the aborted stream stays closed");
+    // an Acknowledge now addresses the NEW stream only
+    let r = poll_once(w.task.process_frame(Frame::new_acknowledge(A, 2), false));
+    core::mem::forget(r);
+    assert!(old.psh_send_remaining.load(Ordering::Relaxed) == 3, "C06.reuse.no_alias: frames for the re-used id never reach the old stream");
+    core::mem::forget((old, w));
 }
